@@ -88,7 +88,7 @@ def zoom_cases(draw):
     cxy = draw(gen.dyadic(-1, 1, 4))
     return {"n": n, "order": order, "target": target, "tk": tk, "cx": cx, "cy": cy, "cxy": cxy,
             "noise": draw(gen.float_array((n, n), kind="dense")), "entry": draw(st.sampled_from(["zoom", "zoom_rbs"])),
-            "complex": draw(st.booleans())}
+            "complex": draw(st.booleans()), "single": draw(st.sampled_from([False, False, True]))}
 
 
 def poly(case, X, Y):
@@ -106,12 +106,16 @@ def zoom_body(ctx, case):
         kx, ky = target
     else:
         kx = ky = target
-    ctx.case(case, nontrivial=(kx != ky) or order == 5, classes=[case["entry"], "order%d" % order, "target_" + case["tk"], "complex" if case["complex"] else "real"])
+    ctx.case(case, nontrivial=(kx != ky) or order == 5, classes=[case["entry"], "order%d" % order, "target_" + case["tk"], "complex" if case["complex"] else "real", "single_precision" if case.get("single") else "double_precision"])
     gx, gy = np.arange(n, dtype=float), np.arange(n, dtype=float)
     X, Y = np.meshgrid(gx, gy, indexing="ij")            # X = first axis coordinate
     arr = poly(case, X, Y)
     if case["complex"]:
         arr = arr + 1j * poly(dict(case, cx=case["cy"], cy=case["cx"]), X, Y)
+    single = case.get("single", False)
+    if single:
+        arr = arr.astype(np.complex64 if case["complex"] else np.float32)     # dyadic coefficients: exactly representable
+    tolp = 1e-9 if not single else 2e-5
     a0 = arr.copy()
     out = f(arr, target, order)
     ctx.equal(arr, a0, "%s modified its input" % case["entry"])
@@ -122,19 +126,22 @@ def zoom_body(ctx, case):
     if case["complex"]:
         want = want + 1j * poly(dict(case, cx=case["cy"], cy=case["cx"]), XN, YN)
     sc = float(np.max(np.abs(arr))) or 1.0
-    ctx.close(out, want, 1e-9, "%s reproduces a degree<=order polynomial at the new sample positions" % case["entry"], scale=sc)
+    ctx.require(np.iscomplexobj(out) == bool(case["complex"]), "%s of %s data returned dtype %s" % (case["entry"], arr.dtype, out.dtype))
+    ctx.close(out, want, tolp, "%s reproduces a degree<=order polynomial at the new sample positions" % case["entry"], scale=sc, name="polynomial reproduction (%s)" % ("single" if single else "double"))
     # arbitrary data: identity / node interpolation / complex = real + i imag / entry points agree
     noise = case["noise"]
     data = noise + 1j * noise[::-1, :].T if case["complex"] else noise
+    if single:
+        data = data.astype(np.complex64 if case["complex"] else np.float32)
     z = f(data, target, order)
     ctx.require(z.shape == (kx, ky), "%s shape on arbitrary data" % case["entry"])
     if kx == n and ky == n:
-        ctx.close(z, data, 1e-10, "%s to the same size returns the input" % case["entry"], scale=1.0)
+        ctx.close(z, data, 1e-10 if not single else 1e-6, "%s to the same size returns the input" % case["entry"], scale=1.0, name="same size identity")
     if kx == ky and (kx - 1) % (n - 1) == 0:
         q = (kx - 1) // (n - 1)
-        ctx.close(z[::q, ::q], data, 1e-10, "%s passes through the original samples when the new grid contains the old nodes" % case["entry"], scale=1.0)
+        ctx.close(z[::q, ::q], data, 1e-10 if not single else 1e-6, "%s passes through the original samples when the new grid contains the old nodes" % case["entry"], scale=1.0, name="node interpolation")
     if case["complex"]:
-        ctx.close(z, f(data.real.copy(), target, order) + 1j * f(data.imag.copy(), target, order), 1e-12, "%s(complex) == zoom(real) + i zoom(imag)" % case["entry"], scale=1.0)
+        ctx.close(z, f(data.real.copy(), target, order) + 1j * f(data.imag.copy(), target, order), 1e-12, "%s(%s) == zoom(real) + i zoom(imag)" % (case["entry"], data.dtype), scale=1.0, name="complex = real + i imag")
     other = it.zoom_rbs if case["entry"] == "zoom" else it.zoom
     ctx.close(other(data, target, order), z, 1e-9, "zoom and zoom_rbs agree", scale=1.0)
     # anisotropy: values must vary along the axis they were sampled on (ramp along first axis only)
